@@ -192,7 +192,7 @@ func (H) Generate(rng *simrt.Rand, prop, tier string) (any, simrt.Config) {
 	sc := &Scenario{Targets: u.Targets, Window: []int{0, 1, 2, 8, 64}[rng.Intn(5)], TimeoutNs: int64(time.Minute), Stats: rng.Chance(0.5)}
 	sc.Opts.EventDriven = rng.Chance(0.6)
 	small := rng.Chance(0.4)
-	lifecycle := prop == "C14" || rng.Chance(0.35)
+	lifecycle := prop == "C14" || (prop == "C04" || prop == "C05") && rng.Chance(0.55) || rng.Chance(0.35)
 	static := prop == "C05" && rng.Chance(0.5)
 	sc.Preload = cacheh.GenStreams(rng, u, "pre", false, small, false, 8)
 	if !static {
